@@ -400,6 +400,116 @@ theorem released_step_accounted_once_ghost (cfg : Ghost.Cfg ℝ) (s : Ghost.Stat
   · rw [Ghost.release_ok cfg s norms _ h10]
   · rw [Ghost.release_err cfg s norms _ h10]
 
+/-! ## non-interference along whole runs -/
+
+/-- two ghost runs are *matched* when, step by step, the batches have the same size and
+`exact count + draw` coincide (counts taken at the state the first run is in) -/
+def Ghost.Matched (cfg : Ghost.Cfg ℝ) : Ghost.State ℝ → List (List ℝ × ℝ) → List (List ℝ × ℝ) → Prop
+  | _, [], [] => True
+  | s, (n₁, z₁) :: r₁, (n₂, z₂) :: r₂ =>
+      n₁.length = n₂.length ∧
+      ((Ghost.unclippedCount s.C n₁ : ℕ) : ℝ) + z₁ = ((Ghost.unclippedCount s.C n₂ : ℕ) : ℝ) + z₂ ∧
+      Ghost.Matched cfg (Ghost.step cfg s n₁ z₁).1 r₁ r₂
+  | _, _, _ => False
+
+/-- **raw_count_noninterference** along runs (ghost): matched runs end in the same state and expose
+the same sequence of bounds, noise stds and accountant entries -/
+theorem raw_count_noninterference_ghost_run (cfg : Ghost.Cfg ℝ) :
+    ∀ (xs ys : List (List ℝ × ℝ)) (s : Ghost.State ℝ), Ghost.Matched cfg s xs ys →
+      (Ghost.run cfg s xs).1 = (Ghost.run cfg s ys).1 ∧
+      (Ghost.run cfg s xs).2.map pub = (Ghost.run cfg s ys).2.map pub := by
+  intro xs
+  induction xs with
+  | nil =>
+    intro ys s h
+    cases ys with
+    | nil => simp [Ghost.run]
+    | cons y ys => simp [Ghost.Matched] at h
+  | cons x xs ih =>
+    intro ys s h
+    cases ys with
+    | nil => obtain ⟨n₁, z₁⟩ := x; simp [Ghost.Matched] at h
+    | cons y ys =>
+      obtain ⟨n₁, z₁⟩ := x
+      obtain ⟨n₂, z₂⟩ := y
+      obtain ⟨hlen, hnoisy, hrest⟩ := h
+      obtain ⟨hst, hpub⟩ := raw_count_noninterference_ghost cfg s n₁ n₂ z₁ z₂ hlen hnoisy
+      unfold Ghost.run
+      rcases h1 : Ghost.step cfg s n₁ z₁ with ⟨s₁, r₁⟩
+      rcases h2 : Ghost.step cfg s n₂ z₂ with ⟨s₂, r₂⟩
+      rw [h1, h2] at hst hpub
+      rw [h1] at hrest
+      simp only at hst hpub hrest
+      subst hst
+      obtain ⟨ih1, ih2⟩ := ih ys s₁ hrest
+      cases r₁ <;> cases r₂ <;> simp [pub] at hpub <;> simp [pub, hpub, ih1, ih2]
+
+/-- non-vacuity: exact counts 1 and 2, compensating draws -/
+example : Ghost.Matched ⟨1/5, 1/2, 1/100, 100, .asCoded⟩ (Ghost.init (1/20 : ℝ) 1) [([1/2, 5], 1)] [([1/2, 1/4], 0)] := by
+  simp [Ghost.Matched, Ghost.unclippedCount, Ghost.init, List.countP_cons]
+  norm_num
+
+/-- AdaClip: matched runs of physical batches (same skip flags, same sizes, and equal
+`exact counter + draw` at every releasing batch) -/
+def Ada.Matched (cfg : Ada.Cfg ℝ) : Ada.State ℝ → Ada.State ℝ → List (List ℝ × ℝ × Bool) → List (List ℝ × ℝ × Bool) → Prop
+  | _, _, [], [] => True
+  | s₁, s₂, (n₁, z₁, k₁) :: r₁, (n₂, z₂, k₂) :: r₂ =>
+      k₁ = k₂ ∧ n₁.length = n₂.length ∧
+      (k₁ = false → ((Ada.counters cfg s₁ n₁).2 : ℝ) + z₁ = ((Ada.counters cfg s₂ n₂).2 : ℝ) + z₂) ∧
+      Ada.Matched cfg (Ada.phys cfg s₁ n₁ z₁ k₁).1 (Ada.phys cfg s₂ n₂ z₂ k₂).1 r₁ r₂
+  | _, _, _, _ => False
+
+theorem Ada.agree_refl (s : Ada.State ℝ) : Ada.AgreeUpToCount s s := ⟨rfl, rfl, rfl, rfl, rfl⟩
+
+/-- **raw_count_noninterference** along runs (AdaClipDPOptimizer, virtual steps included): matched
+runs expose the same sequence of bounds, noise stds, noisy counts and accountant entries, and their
+final states agree on everything but the exact counter. -/
+theorem raw_count_noninterference_adaclip_run (cfg : Ada.Cfg ℝ) :
+    ∀ (xs ys : List (List ℝ × ℝ × Bool)) (s₁ s₂ : Ada.State ℝ), Ada.AgreeUpToCount s₁ s₂ →
+      Ada.Matched cfg s₁ s₂ xs ys →
+      (Ada.run cfg s₁ xs).2.map pub = (Ada.run cfg s₂ ys).2.map pub := by
+  intro xs
+  induction xs with
+  | nil =>
+    intro ys s₁ s₂ _ h
+    cases ys with
+    | nil => simp [Ada.run]
+    | cons y ys => simp [Ada.Matched] at h
+  | cons x xs ih =>
+    intro ys s₁ s₂ hs h
+    cases ys with
+    | nil => obtain ⟨n₁, z₁, k₁⟩ := x; simp [Ada.Matched] at h
+    | cons y ys =>
+      obtain ⟨n₁, z₁, k₁⟩ := x
+      obtain ⟨n₂, z₂, k₂⟩ := y
+      obtain ⟨hk, hlen, hnoisy, hrest⟩ := h
+      subst hk
+      have key : pub (Ada.phys cfg s₁ n₁ z₁ k₁).2 = pub (Ada.phys cfg s₂ n₂ z₂ k₁).2 ∧
+          ((∀ e, (Ada.phys cfg s₁ n₁ z₁ k₁).2 ≠ .err e) →
+            Ada.AgreeUpToCount (Ada.phys cfg s₁ n₁ z₁ k₁).1 (Ada.phys cfg s₂ n₂ z₂ k₁).1) := by
+        cases k₁ with
+        | true =>
+          obtain ⟨a, b⟩ := raw_count_noninterference_adaclip_skip cfg s₁ s₂ n₁ n₂ z₁ z₂ hs hlen
+          exact ⟨b, fun _ => a⟩
+        | false =>
+          obtain ⟨a, b⟩ := raw_count_noninterference_adaclip cfg s₁ s₂ n₁ n₂ z₁ z₂ hs hlen (hnoisy rfl)
+          refine ⟨a, fun hne => ?_⟩
+          by_cases he : n₁ = [] ∧ cfg.empty = .asCoded
+          · exact absurd (by simp [Ada.phys, he]) (hne .emptyBatch)
+          · rw [b he]; exact Ada.agree_refl _
+      obtain ⟨hpub, hag⟩ := key
+      unfold Ada.run
+      rcases h1 : Ada.phys cfg s₁ n₁ z₁ k₁ with ⟨t₁, r₁⟩
+      rcases h2 : Ada.phys cfg s₂ n₂ z₂ k₁ with ⟨t₂, r₂⟩
+      rw [h1, h2] at hpub hag hrest
+      simp only at hpub hag hrest
+      cases r₁ <;> cases r₂ <;> simp [pub] at hpub
+      · have := ih ys t₁ t₂ (hag (by simp)) hrest
+        simp [pub, hpub, this]
+      · have := ih ys t₁ t₂ (hag (by simp)) hrest
+        simp [pub, this]
+      · simp [pub, hpub]
+
 /-! ## the witnesses in binary64 (what the driver computes and the harness replays on the real code) -/
 
 /-- `Float` instance, σ = 1, σ_b = 1: the multiplier written to `optimizer.noise_multiplier` (and, as
